@@ -183,8 +183,11 @@ ORACLES = [
      'bound': '4 rule blocks + 2 top-level lines, 3 view blocks + 2 globals; 8 layout variants; all property orders; ~60 corruptions (incl. 9 malformed priorities); all block permutations'},
 ]
 TRUSTED_BASE = ['pyvc symbolic executor and the syntactic information-flow clauses in props/C17.py', 'z3 5.1.0 / cvc5 1.0.3',
-                'parse_expression raises ExpressionError exactly for invalid expressions (C03/C07 contract), regex classifiers opaque (A6)']
-ASSUMPTIONS = ['order among let: lines and among a view\'s variable lines is semantic by design and not part of "distinct properties"',
+                'parse_expression raises ExpressionError exactly for invalid expressions (C03/C07 contract), regex classifiers opaque (A6)',
+                'in the parse() line loop _add_rule is used through its contract (appends exactly one rule or raises MerchantParseError naming the given line) and the rule being collected is an opaque non-empty dict',
+                'every_filter_nonempty is a recursive definition on sequences, instantiated where a view is recorded (conservative extension)']
+ASSUMPTIONS = ['the line classifiers (COMMENT, BLANK, SECTION_HEADER, FILTER_DECL, DESCRIPTION_DECL, VARIABLE_DECL, the two inline patterns of parse) are uninterpreted predicates of the text they are applied to',
+               'order among let: lines and among a view\'s variable lines is semantic by design and not part of "distinct properties"',
                'a repeated key inside a section overrides the earlier one and property lines before the first header are ignored: recorded observations, not obligations']
 EXPLANATION = ('_add_rule proved by symbolic execution over all key-presence combinations; the line loops of parse_sections and MerchantEngine.parse proved by loop invariants over ghost folds '
                '(one view / one _add_rule call per header, in file order, with its line number; rejections name the line); information-flow clauses for parse decided syntactically; '
